@@ -199,6 +199,57 @@ def oracle_b_job(job):
     return n, bad
 
 
+def or_fatal_jobs(ctx, n):
+    """template stream: an Or whose alternatives mix (a) sequences that pass an error stop and then fail with (b) siblings
+    that match in the action-free trial pass but are vetoed in the second pass by a condition / action, at various
+    distances; wrapped in the containers that must not swallow the fatal"""
+    jobs = []
+    toks = ["a", "b", "x", "ab"]
+    for i in range(n):
+        r = random.Random(f"C07-{ctx.seed}-orf-{i}")
+        prog, alts = [], []
+        for k in range(r.choice([2, 2, 3])):
+            elems = []
+            m = r.choice([2, 3, 4])
+            for j in range(m):
+                v = f"e{k}_{j}"
+                kind = r.choice(["Literal", "Literal", "Word"])
+                prog.append([v, kind, r.choice(toks) if kind == "Literal" else "ab"])
+                if r.random() < 0.3:
+                    if r.random() < 0.5:
+                        prog.append(["_", "condition", v, False, {"fatal": r.random() < 0.2}])
+                    else:
+                        prog.append(["_", "action", v, r.choice([["failP"], ["failF"], ["none"]])])
+                elems.append(v)
+            cur = elems[0]
+            for j in range(1, m):
+                nv = f"s{k}_{j}"
+                prog.append([nv, "-" if r.random() < 0.4 else "+", cur, elems[j]])
+                cur = nv
+            alts.append(cur)
+        prog.append(["o", "Or", alts] if len(alts) == 3 or r.random() < 0.5 else ["o", "^", alts[0], alts[1]])
+        root = "o"
+        w = r.choice(["none", "Group", "Opt", "ZeroOrMore", "MatchFirstFallback", "Forward", "OneOrMore"])
+        if w in ("Group", "Opt", "ZeroOrMore", "OneOrMore"):
+            prog.append(["w", w, "o"])
+            prog.append(["rest", "Word", "abx "])
+            prog.append(["root", "+", "w", "rest"] if w in ("Opt", "ZeroOrMore") else ["root", "copy", "w"])
+            root = "root"
+        elif w == "MatchFirstFallback":
+            prog.append(["rest", "Word", "abx "])
+            prog.append(["root", "|", "o", "rest"])
+            root = "root"
+        elif w == "Forward":
+            prog = [["f", "Forward"]] + prog + [["sc", "Literal", "x"], ["tail", "+", "sc", "f"], ["ot", "Opt", "tail"],
+                                               ["body", "+", "o", "ot"], ["_", "<<=", "f", "body"]]
+            root = "f"
+        inputs = []
+        for _ in range(6):
+            inputs.append(" ".join(r.choice(toks) for _ in range(r.randint(1, 5))))
+        jobs.append(dict(prog=prog, root=root, inputs=inputs, entries=[("parse", ()), ("scan", (100, True, False))], modes=[("none",)]))
+    return jobs
+
+
 def _targets(prog):
     return [st[0] for st in prog if st[0] != "_" and st[1] not in ("Forward",)]
 
@@ -243,6 +294,14 @@ def run(ctx):
         jobs.append(dict(prog=prog, root=root, inputs=inputs, entries=[("parse", ()), ("scan", (100, True, False))],
                          modes=[("none",)]))
     corr_parse.run_jobs(ctx, "model-vs-real:dashy", jobs)
+    oj = or_fatal_jobs(ctx, ctx.budget(3000, 30000))
+    corr_parse.run_jobs(ctx, "model-vs-real:or-fatal-templates", oj)
+    res = common.pmap(oracle_b_job, [dict(prog=j["prog"], root=j["root"], inputs=j["inputs"]) for j in oj])
+    bad = [m for r_ in res for m in r_[1]]
+    ctx.count_cases("oracle-B:or-fatal-templates", sum(r_[0] for r_ in res), outcomes={"mismatch": len(bad)})
+    for m in bad[:2]:
+        ctx.fail_input("fatal exception / error stop backtracked over", {k: m[k] for k in m if k not in ("expected", "actual")},
+                       m["expected"], m["actual"], theorem="C07 oracle B", how="harness.props.c07.oracle_b_job")
     run_oracles(ctx, 1)
     if ctx.broken and not ctx.fail_inputs:
         run_oracles(ctx, 5)
